@@ -2167,6 +2167,13 @@ func (c *Conn) handleRecordContent(
 ) (bool, packetOutcome, error) {
 	switch content := content.(type) {
 	case *protocol.ACK:
+		if _, is13 := c.state.(*dtlsstate.State13); !is13 {
+			// ACK records exist in DTLS 1.3 only [RFC9147 Section-7]; in a DTLS 1.2
+			// association they are an unknown record type and are discarded.
+			c.log.Debug("discarded ACK record outside DTLS 1.3")
+
+			return false, packetOutcome{}, nil
+		}
 		isLatestSeqNum := prepared.markPacketAsValid()
 
 		return isLatestSeqNum, packetOutcome{
